@@ -13,7 +13,37 @@ fn go<N: FromLabel + NumericOps>(op: &str, args: &[Arg]) -> Option<String> {
     })
 }
 
+fn fbits(a: &Array<f64>) -> String {
+    if let Some(v) = wf_violation(a) { return v; }
+    format!("f({}:{})", shape_str(&a.get_shape().unwrap()), a.get_elements().unwrap().iter().map(|x| format!("{:016x}", x.to_bits())).collect::<Vec<_>>().join(","))
+}
+fn rf(r: &Result<Array<f64>, ArrayError>) -> String { match r { Ok(a) => fbits(a), Err(e) => err_str(e) } }
+
+/// C15: integer entries (exact in f64); results as raw f64 bit patterns
+fn go15(op: &str, args: &[Arg]) -> Option<String> {
+    let mkf = |sh: &Vec<usize>, es: &Vec<i128>| Array::new(es.iter().map(|&x| x as f64).collect(), sh.clone()).ok();
+    Some(match (op, args) {
+        ("solve", [Arg::A(s1, e1), Arg::A(s2, e2)]) => rf(&mkf(s1, e1)?.solve(&mkf(s2, e2)?)),
+        ("det", [Arg::A(s1, e1)]) => rf(&mkf(s1, e1)?.det()),
+        ("qr", [Arg::A(s1, e1)]) => match mkf(s1, e1)?.qr() {
+            Ok(v) => format!("list({})", v.iter().map(|(q, r)| format!("{};{}", fbits(q), fbits(r))).collect::<Vec<_>>().join(";")),
+            Err(e) => err_str(&e) },
+        ("norm", [Arg::A(s1, e1), ord]) => {
+            let a = mkf(s1, e1)?;
+            match ord {
+                Arg::N => rf(&a.norm(None::<NormOrd>, None, None)),
+                Arg::Z(1) => rf(&a.norm(Some(NormOrd::Int(1)), None, None)),
+                Arg::Z(2) => rf(&a.norm(Some(NormOrd::Int(2)), None, None)),
+                Arg::Z(99) => rf(&a.norm(Some(NormOrd::Inf), None, None)),
+                Arg::S(s) => rf(&a.norm(Some(std::str::from_utf8(s).ok()?), None, None)),
+                _ => return None }
+        }
+        _ => return None,
+    })
+}
+
 pub fn dispatch(op: &str, ty: &str, args: &[Arg]) -> Option<String> {
+    if let "solve" | "det" | "qr" | "norm" = op { return Some(go15(op, args).unwrap_or_else(|| "bad:input".to_string())); }
     match op { "vdot" | "inner" | "outer" | "matmul" | "matmul_pinned" | "dot" | "dot_pinned" => {} _ => return None }
     let r = match ty { "i32" => go::<i32>(op, args), "i64" => go::<i64>(op, args), "f64" => go::<f64>(op, args), "f32" => go::<f32>(op, args), _ => None };
     Some(r.unwrap_or_else(|| "bad:input".to_string()))
